@@ -121,6 +121,17 @@ func TestTypeDirected(t *testing.T) {
 					t.Fatalf("C06: %v\nscenario: %s", err, desc)
 				}
 			}
+			// now and then the same objects - fields still populated - are started in a second, fresh container
+			if rapid.IntRange(0, 4).Draw(t, "secondcontainer") == 0 {
+				in.Run()
+				if in.Out.Panic != nil || in.Out.Err != nil {
+					t.Fatalf("C06: the same components started in a second container: %v (the first start succeeded)\nscenario: %s", in.Out, desc)
+				}
+				if err := graph.CheckWiringOpt(in.G, graph.WiringOpts{Complete: true}); err != nil {
+					t.Fatalf("C06: second container over the same components: %v\nscenario: %s", err, desc)
+				}
+				labels = append(labels, "second-container-same-objects")
+			}
 			for k := range s.Cons {
 				c := in.Comp(s.ConsumerIndex(k))
 				for _, p := range g.Points[c] {
